@@ -321,7 +321,13 @@ def check_static_file(P, R):
         tst = enclosing(r, ast.If)
         ok, det = False, 'cannot find the If-Modified-Since comparison'
         if tst is not None:
-            parts = bool_operands(tst.test, ast.And)
+            test_expr, tn = tst.test, g.nodes_for(tst.test)[0]
+            if isinstance(test_expr, ast.Name):
+                # the decision was computed into a flag: the definitions that are not the constant False carry the condition
+                conds = [d for d in rd.root_defs(tn, test_expr.id) if not (d.value is not None and is_const(d.value, False))]
+                if len(conds) == 1 and conds[0].kind == 'assign' and conds[0].value is not None:
+                    test_expr, tn = conds[0].value, conds[0].node
+            parts = bool_operands(test_expr, ast.And)
             cmp = [p for p in parts if isinstance(p, ast.Compare) and isinstance(p.ops[0], (ast.GtE, ast.LtE, ast.Gt, ast.Lt))]
             nn = [p for p in parts if isinstance(p, ast.Compare) and isinstance(p.ops[0], ast.IsNot) and is_const(p.comparators[0], None)]
             if cmp:
@@ -329,7 +335,6 @@ def check_static_file(P, R):
                 lhs, op, rhs = c0.left, c0.ops[0], c0.comparators[0]
                 ims = lhs if isinstance(lhs, ast.Name) else rhs
                 other = rhs if ims is lhs else lhs
-                tn = g.nodes_for(tst.test)[0]
                 # f: abstract values of ims at the comparison
                 defs = rd.at(tn, ims.id) if isinstance(ims, ast.Name) else []
                 vals_ok = bool(defs)
@@ -403,7 +408,7 @@ def check_parse_date(P, R):
 
 def check(P, R):
     R.rule('C17.a', 'one slice, three descriptions', floor=7)
-    R.rule('C17.b', 'parser returns clipped ordered pairs, raises nothing', floor=8)
+    R.rule('C17.b', 'parser returns clipped ordered pairs, raises nothing', floor=5)
     R.rule('C17.c', 'bounded streaming with received-length accounting', floor=7)
     R.rule('C17.d', 'full response carries the true length', floor=2)
     R.rule('C17.e', '304 / HEAD carry no body', floor=3)
